@@ -352,8 +352,20 @@ def z3_program(variables, constraints):
     return zs, zv
 
 
+class Undecided(RuntimeError):
+    """the harness could not decide a posted program within its bounds (reported as a harness error, never
+    silently dropped)"""
+
+
 class Session:
-    """decide the posted program for fixed values of the frame's variables"""
+    """decide the posted program for fixed values of the frame's variables.
+
+    The pattern is passed to z3 as assumptions (no push/pop on the common path).  A posted
+    GRAPH_ACTIVE_VERTICES_CONNECTED node is evaluated on the model; when it fails, a connectivity cut that every
+    connected set of active vertices satisfies is added (inside a push/pop scope) and the plain part is solved
+    again, so the decision does not depend on how many assignments the plain part alone would admit."""
+
+    CUT_LIMIT = 400
 
     def __init__(self, solver):
         from cspuz.expr import Op
@@ -363,6 +375,36 @@ class Session:
         plain = [c for c in solver.constraints if id(c) not in gids]
         self.zs, self.zv = z3_program(solver.variables, plain)
         self.solver = solver
+        self._decoded = [self._decode(node) for node in self.graph_nodes]
+
+    def _decode(self, node):
+        import z3
+        from cspuz.expr import BoolVar
+        ops = node.operands
+        n, mm = ops[0], ops[1]
+        acts = []
+        for a in ops[2:2 + n]:
+            if isinstance(a, bool):
+                acts.append(z3.BoolVal(a))
+            elif isinstance(a, BoolVar):
+                acts.append(self.zv[a.id])
+            else:
+                raise TypeError("primitive operand is not a variable")
+        flat = ops[2 + n:]
+        if len(flat) != 2 * mm:
+            raise ValueError("primitive operand count")
+        edges = [(flat[2 * i], flat[2 * i + 1]) for i in range(mm)]
+        adj = [set() for _ in range(n)]
+        for a, b in edges:
+            if not (0 <= a < n and 0 <= b < n):
+                raise ValueError("primitive edge end point")
+            adj[a].add(b)
+            adj[b].add(a)
+        return n, edges, acts, adj
+
+    def _lits(self, fixed):
+        import z3
+        return [self.zv[v.id] if val else z3.Not(self.zv[v.id]) for v, val in fixed]
 
     def _model(self):
         import z3
@@ -374,64 +416,290 @@ class Session:
             out[v.id] = z3.is_true(val) if isinstance(v, BoolVar) else val.as_long()
         return out
 
-    def _graph_ok(self, model):
-        from cspuz.expr import BoolVar
-        for node in self.graph_nodes:
-            ops = node.operands
-            n, mm = ops[0], ops[1]
-            acts = []
-            for a in ops[2:2 + n]:
-                if isinstance(a, bool):
-                    acts.append(a)
-                elif isinstance(a, BoolVar):
-                    acts.append(model[a.id])
-                else:
-                    raise TypeError("primitive operand is not a variable")
-            flat = ops[2 + n:]
-            edges = [(flat[2 * i], flat[2 * i + 1]) for i in range(mm)]
-            if not graphcap.is_connected(n, edges, acts):
-                return False
-        return True
-
-    def decide(self, fixed, aux_vars, cap=4):
-        """fixed: [(BoolVar, bool)].  Returns (sat, model or None).  With graph nodes: enumerate the
-        models of the plain part over aux_vars (they are functionally determined: at most `cap`)."""
+    def _graph_cut(self):
+        """None when every primitive node holds in the current z3 model, else a formula implied by the failing
+        node and false in the model"""
         import z3
+        m = self.zs.model()
+        for (n, edges, acts, adj) in self._decoded:
+            on = [z3.is_true(m.eval(a, model_completion=True)) for a in acts]
+            if graphcap.is_connected(n, edges, on):
+                continue
+            start = on.index(True)
+            comp, todo = {start}, [start]
+            while todo:
+                u = todo.pop()
+                for t in adj[u]:
+                    if on[t] and t not in comp:
+                        comp.add(t)
+                        todo.append(t)
+            border = set()
+            for u in comp:
+                border |= adj[u] - comp
+            rest = [t for t in range(n) if t not in comp and t not in border]
+            return z3.Or([z3.Not(acts[u]) for u in sorted(comp)] + [acts[u] for u in sorted(border)]
+                         + [z3.And([z3.Not(acts[t]) for t in rest])])
+        return None
+
+    def _solve(self, lits):
+        """(sat, model) of plain part + primitive nodes under the assumption literals"""
+        import z3
+        if self.zs.check(*lits) != z3.sat:
+            return False, None
+        cut = self._graph_cut() if self.graph_nodes else None
+        if cut is None:
+            return True, self._model()
         self.zs.push()
         try:
-            for v, val in fixed:
-                self.zs.add(self.zv[v.id] if val else z3.Not(self.zv[v.id]))
-            for _ in range(cap if self.graph_nodes else 1):
-                if self.zs.check() != z3.sat:
+            for _ in range(self.CUT_LIMIT):
+                self.zs.add(cut)
+                if self.zs.check(*lits) != z3.sat:
                     return False, None
-                model = self._model()
-                if self._graph_ok(model):
-                    return True, model
-                self.zs.add(z3.Or([self.zv[a.id] != model[a.id] for a in aux_vars]))
-            if self.graph_nodes and self.zs.check() == z3.sat:
-                raise RuntimeError("more than %d assignments of the auxiliary arrays" % cap)
-            return False, None
+                cut = self._graph_cut()
+                if cut is None:
+                    return True, self._model()
+            raise Undecided("more than %d connectivity cuts" % self.CUT_LIMIT)
         finally:
             self.zs.pop()
+
+    def decide(self, fixed, aux_vars=None):
+        """fixed: [(BoolVar, bool)].  Returns (sat, model or None)."""
+        return self._solve(self._lits(fixed))
 
     def other_values(self, fixed, expected):
         """is there a solution in which some (var, value) of `expected` differs?  Returns a model or None."""
         import z3
-        self.zs.push()
-        try:
-            for v, val in fixed:
-                self.zs.add(self.zv[v.id] if val else z3.Not(self.zv[v.id]))
-            self.zs.add(z3.Or([self.zv[v.id] != val for v, val in expected]))
-            for _ in range(4):
-                if self.zs.check() != z3.sat:
-                    return None
-                model = self._model()
-                if self._graph_ok(model):
-                    return model
-                self.zs.add(z3.Or([self.zv[v.id] != model[v.id] for v, _ in expected]))
-            return None
-        finally:
-            self.zs.pop()
+        diff = z3.Or([self.zv[v.id] != val for v, val in expected])
+        return self._solve(self._lits(fixed) + [diff])[1]
+
+
+# ------------------------------------------------------------------ targeted patterns (frames beyond the exhaustive scope)
+
+def _sg(p, q):
+    return frozenset({p, q})
+
+
+def rect_segments(y0, x0, y1, x1):
+    out = set()
+    for x in range(x0, x1):
+        out.add(_sg((y0, x), (y0, x + 1)))
+        out.add(_sg((y1, x), (y1, x + 1)))
+    for y in range(y0, y1):
+        out.add(_sg((y, x0), (y + 1, x0)))
+        out.add(_sg((y, x1), (y + 1, x1)))
+    return out
+
+
+def walk_segments(points):
+    return {_sg(a, b) for a, b in zip(points, points[1:])}
+
+
+def line_points(p, q):
+    """lattice points of the straight axis-parallel line from p to q (both included)"""
+    (y0, x0), (y1, x1) = p, q
+    if y0 == y1:
+        step = 1 if x1 >= x0 else -1
+        return [(y0, x) for x in range(x0, x1 + step, step)]
+    assert x0 == x1
+    step = 1 if y1 >= y0 else -1
+    return [(y, x0) for y in range(y0, y1 + step, step)]
+
+
+def poly_segments(corners):
+    pts = [corners[0]]
+    for c in corners[1:]:
+        pts += line_points(pts[-1], c)[1:]
+    return walk_segments(pts)
+
+
+def random_trail(rng, h, w, max_len):
+    """a random walk that never reuses a segment, goes straight through a point it has already passed straight
+    (interior only) and stops where it could only produce a 3-way point: mostly single self-crossing trails"""
+    used = set()
+    deg = {}
+    p = (rng.randint(0, h), rng.randint(0, w))
+    start = p
+    prev = None
+    for _ in range(max_len):
+        (y, x) = p
+        nb = [(y + dy, x + dx) for dy, dx in ((0, 1), (1, 0), (0, -1), (-1, 0)) if 0 <= y + dy <= h and 0 <= x + dx <= w]
+        nb = [q for q in nb if _sg(p, q) not in used]
+        if not nb:
+            break
+        k = deg.get(p, 0)            # segments at p, the one we arrived by included
+        if prev is not None and k == 3:
+            ahead = (2 * y - prev[0], 2 * x - prev[1])
+            if ahead in nb and rng.random() < 0.9:
+                q = ahead
+            else:
+                break
+        elif prev is not None and k >= 2:
+            break                     # closed up (k == 2) or already a crossing
+        else:
+            ahead = None if prev is None else (2 * y - prev[0], 2 * x - prev[1])
+            if ahead in nb and rng.random() < 0.55:
+                q = ahead
+            else:
+                q = rng.choice(nb)
+        used.add(_sg(p, q))
+        deg[p] = deg.get(p, 0) + 1
+        deg[q] = deg.get(q, 0) + 1
+        prev, p = p, q
+        if p == start and deg[p] == 2 and rng.random() < 0.7:
+            break
+    return used
+
+
+def targeted_patterns(h, w, rng, n_random=60, pair_cap=160, cycle_cap=240):
+    """[(family, bits)] over lattice_segments(h, w): the shapes the exhaustive frames are too small for.  Nothing
+    here says whether a pattern is admissible: the oracle decides."""
+    segs = lattice_segments(h, w)
+    index = {sg: i for i, (sg, _) in enumerate(segs)}
+    out, seen = [], set()
+
+    def add(tag, segset):
+        segset = frozenset(segset)
+        if not segset <= index.keys() or segset in seen:
+            return
+        seen.add(segset)
+        bits = [False] * len(segs)
+        for sg in segset:
+            bits[index[sg]] = True
+        out.append((tag, tuple(bits)))
+
+    add("empty", ())
+    for (sg, _) in segs:
+        add("single", {sg})
+    interior = [(y, x) for y in range(1, h) for x in range(1, w)]
+    rects = [(y0, x0, y1, x1) for y0 in range(h + 1) for y1 in range(y0 + 1, h + 1)
+             for x0 in range(w + 1) for x1 in range(x0 + 1, w + 1)]
+    rsegs = {r: frozenset(rect_segments(*r)) for r in rects}
+    for r in rects:
+        add("rect", rsegs[r])
+    # figure-eights: two rectangles meeting in one corner at an interior point
+    eights = []
+    for (y, x) in interior:
+        for (a, b) in (((y - 1, x - 1, y, x), (y, x, y + 1, x + 1)), ((y - 1, x, y, x + 1), (y, x - 1, y + 1, x)),
+                       ((0, 0, y, x), (y, x, h, w)), ((0, x, y, w), (y, 0, h, x))):
+            e = rsegs[a] | rsegs[b]
+            eights.append(((y, x), e))
+            add("eight", e)
+    for (p, e) in eights:
+        for sg in sorted(e, key=sorted):
+            add("eight-minus-1", e - {sg})
+        others = [sg for (sg, _) in segs if sg not in e]
+        for sg in rng.sample(others, min(4, len(others))):
+            add("eight-plus-1", e | {sg})
+    for i, (p, e) in enumerate(eights):
+        for (q, f) in eights[i + 1:]:
+            if p != q and not (e & f):
+                if rng.random() < 0.35:
+                    add("two-eights", e | f)
+    # the bare 4-way point, its arms closed on one side / on both
+    for (y, x) in interior:
+        arms = {_sg((y, x), (y, x + 1)), _sg((y, x), (y, x - 1)), _sg((y, x), (y + 1, x)), _sg((y, x), (y - 1, x))}
+        add("plus", arms)
+        add("plus-long", walk_segments(line_points((y, 0), (y, w))) | walk_segments(line_points((0, x), (h, x))))
+        for dy in (-1, 1):
+            for dx in (-1, 1):
+                sq = rect_segments(min(y, y + dy), min(x, x + dx), max(y, y + dy), max(x, x + dx))
+                add("curl", sq | arms)
+        # one strand through the point twice, the far ends joined along the border (open, then closed)
+        openp = poly_segments([(y, 0), (y, w), (h, w), (h, x), (0, x)])
+        add("trail-open", openp)
+        add("trail-closed", openp | poly_segments([(0, x), (0, 0), (y, 0)]))
+        add("trail-open", poly_segments([(y, w), (y, 0), (0, 0), (0, x), (h, x)]))
+    # chains of squares along a diagonal (two and more crossings)
+    for (y, x) in interior:
+        for d in (1, -1):
+            chain = set()
+            yy, xx = y - 1, (x - 1 if d == 1 else x)
+            while 0 <= yy < h and 0 <= xx < w:
+                chain |= rect_segments(yy, xx, yy + 1, xx + 1)
+                yy, xx = yy + 1, xx + d
+            add("square-chain", chain)
+    # pairs of rectangles without a common segment: corner contacts (one strand), proper crossings and disjoint
+    # pairs (two strands), nested pairs
+    pairs = [(a, b) for i, a in enumerate(rects) for b in rects[i + 1:] if not (rsegs[a] & rsegs[b])]
+
+    def touch(a, b):
+        pa = {p for sg in rsegs[a] for p in sg}
+        pb = {p for sg in rsegs[b] for p in sg}
+        return bool(pa & pb)
+    touching = [pr for pr in pairs if touch(*pr)]
+    apart = [pr for pr in pairs if not touch(*pr)]
+    if len(touching) > pair_cap:
+        touching = rng.sample(touching, pair_cap)
+    if len(apart) > pair_cap // 4:
+        apart = rng.sample(apart, pair_cap // 4)
+    for (a, b) in touching:
+        add("rect-pair-touching", rsegs[a] | rsegs[b])
+    for (a, b) in apart:
+        add("rect-pair-apart", rsegs[a] | rsegs[b])
+    # long single strands (rank range of the non-primitive encoding): boustrophedon through every point
+    snake = []
+    for y in range(h + 1):
+        row = [(y, x) for x in range(w + 1)]
+        snake += row if y % 2 == 0 else row[::-1]
+    add("snake", walk_segments(snake))
+    snake = []
+    for x in range(w + 1):
+        col = [(y, x) for y in range(h + 1)]
+        snake += col if x % 2 == 0 else col[::-1]
+    add("snake", walk_segments(snake))
+    # every line of the frame drawn: all interior points 4-way, many strands
+    if h >= 1 and w >= 1:
+        grid = set()
+        for y in range(h + 1):
+            grid |= walk_segments(line_points((y, 0), (y, w)))
+        for x in range(w + 1):
+            grid |= walk_segments(line_points((0, x), (h, x)))
+        add("all-lines", grid)
+    # the cycle space (every pattern with 0, 2 or 4 segments at each point = a sum mod 2 of unit squares): all of
+    # it on frames of up to 9 cells, a sample beyond; the same with a staircase path added mod 2 (two odd points)
+    cells = [(y, x) for y in range(h) for x in range(w)]
+
+    def even(chosen):
+        e = set()
+        for (y, x) in chosen:
+            e ^= rect_segments(y, x, y + 1, x + 1)
+        return e
+    if len(cells) <= 9:
+        subsets = [[c for c, b in zip(cells, bs) if b] for bs in itertools.product([False, True], repeat=len(cells))]
+    else:
+        subsets = []
+        for _ in range(cycle_cap):
+            dens = rng.choice([0.25, 0.4, 0.5, 0.6, 0.75])
+            subsets.append([c for c in cells if rng.random() < dens])
+    for chosen in subsets:
+        e = even(chosen)
+        add("cycle-space", e)
+    for chosen in (rng.sample(subsets, min(len(subsets), cycle_cap // 3)) if cells else []):
+        a = (rng.randint(0, h), rng.randint(0, w))
+        b = (rng.randint(0, h), rng.randint(0, w))
+        path = poly_segments([a, (a[0], b[1]), b]) if rng.random() < 0.5 else poly_segments([a, (b[0], a[1]), b])
+        add("cycle-space-plus-path", even(chosen) ^ path)
+    # random trails, and the same with one segment toggled
+    nseg = len(segs)
+    for _ in range(n_random):
+        t = random_trail(rng, h, w, rng.randint(2, max(2, nseg)))
+        add("random-trail", t)
+        if segs and rng.random() < 0.5:
+            add("random-trail-toggled", set(t) ^ {rng.choice(segs)[0]})
+    return out
+
+
+def crossing_patterns(h, w):
+    """every pattern obeying the 0/1/2/4 rule that has at least one 4-way point"""
+    segs = lattice_segments(h, w)
+    at = {}
+    for i, (sg, _) in enumerate(segs):
+        for p in sg:
+            at.setdefault(p, []).append(i)
+    four = [g for g in at.values() if len(g) == 4]
+    for bits in degree_ok_patterns(h, w):
+        if any(all(bits[i] for i in g) for g in four):
+            yield bits
 
 
 # ------------------------------------------------------------------ search
@@ -443,17 +711,93 @@ def search_frames(ctx):
     return quick
 
 
-def check_pattern(ctx, sess, fr, h, w, sc, prim, segs, bits, passed, cross):
+def targeted_frames(ctx):
+    quick = [(2, 3), (3, 2), (2, 4), (4, 2), (3, 3), (3, 4), (4, 3)]
+    if ctx.thorough:
+        return quick + [(2, 5), (5, 2), (4, 4), (3, 5), (5, 3), (2, 6)]
+    return quick
+
+
+def empty_frames(ctx):
+    n = 7 if ctx.thorough else 6
+    return [(h, w) for h in range(n) for w in range(n)]
+
+
+VARIANTS = ["plain", "alias", "omit", "config-none", "positional-frame", "twice", "twice-mixed"]
+
+
+class _ConfigPrim:
+    """config.use_graph_primitive set for the duration of a call that leaves the argument to the configuration"""
+
+    def __init__(self, prim):
+        self.prim = prim
+
+    def __enter__(self):
+        from cspuz.configuration import config
+        self.old = config.use_graph_primitive
+        config.use_graph_primitive = self.prim
+
+    def __exit__(self, *a):
+        from cspuz.configuration import config
+        config.use_graph_primitive = self.old
+
+
+def do_calls(s, fr, sc, prim, variant):
+    """the calls of one variant on one Solver and one frame; returns the list of returned pairs"""
+    from cspuz import graph
+    f = graph.active_edges_connected_crossable
+    if variant == "plain":
+        return [f(s, fr, single_cycle=sc, use_graph_primitive=prim)]
+    if variant == "alias":
+        assert sc
+        return [graph.active_edges_single_cycle_crossable(s, fr, use_graph_primitive=prim)]
+    if variant == "omit":             # every argument that has a default left out; the route comes from config
+        with _ConfigPrim(prim):
+            if sc:
+                return [f(s, fr, single_cycle=True)]
+            return [f(s, fr)]
+    if variant == "config-none":
+        with _ConfigPrim(prim):
+            return [f(solver=s, is_active_edge=fr, use_graph_primitive=None, single_cycle=sc)]
+    if variant == "positional-frame":
+        return [f(s, is_active_edge=fr, use_graph_primitive=prim, single_cycle=sc)]
+    if variant == "twice":
+        return [f(s, fr, single_cycle=sc, use_graph_primitive=prim), f(s, fr, single_cycle=sc, use_graph_primitive=prim)]
+    if variant == "twice-mixed":      # a path constraint, then the given one on the other route: the conjunction
+        return [f(s, fr, single_cycle=False, use_graph_primitive=prim),
+                f(s, fr, single_cycle=sc, use_graph_primitive=not prim)]
+    raise ValueError(variant)
+
+
+def _key(h, w, sc, prim, pat, variant):
+    if variant == "plain":
+        return "crossable:%dx%d:sc%d:prim%d:%s" % (h, w, sc, prim, pat)
+    return "crossable[%s]:%dx%d:sc%d:prim%d:%s" % (variant, h, w, sc, prim, pat)
+
+
+def check_pattern(ctx, sess, fr, h, w, sc, prim, segs, bits, outs, variant="plain", family=None):
+    """outs: the returned (is_passed, is_cross) pairs of every call made on this Solver"""
     drawn = [s for s, b in zip(segs, bits) if b]
     exp_ok, vis, crs = oracle(h, w, drawn, sc)
-    fixed = [(frame_var_of(fr, s), b) for s, b in zip(segs, bits)]
-    aux = list(passed.data) + list(cross.data)
-    got, model = sess.decide(fixed, aux)
+    fixed = []
+    for s, b in zip(segs, bits):
+        v = frame_var_of(fr, s)
+        if isinstance(v, bool):
+            assert v == b
+        else:
+            fixed.append((v, b))
     pat = "".join("1" if b else "0" for b in bits)
-    key = "crossable:%dx%d:sc%d:prim%d:%s" % (h, w, sc, prim, pat)
-    detail = {"h": h, "w": w, "single_cycle": sc, "use_graph_primitive": prim, "pattern": pat,
+    key = _key(h, w, sc, prim, pat, variant)
+    detail = {"h": h, "w": w, "single_cycle": sc, "use_graph_primitive": prim, "pattern": pat, "variant": variant,
               "segments": [[sorted(s), d] for (s, d) in segs]}
-    ctx.prop_case("sat-vs-oracle", (h, w, sc, prim, pat))
+    if family:
+        detail["pattern_family"] = family
+    try:
+        got, model = sess.decide(fixed)
+    except Undecided as ex:
+        ctx.harness_error("%s: %s" % (key, ex))
+        return
+    ctx.prop_case("sat-vs-oracle", (h, w, sc, prim, pat, variant))
     if got != exp_ok:
         d = dict(detail)
         d.update({"expected_satisfiable": exp_ok, "observed_satisfiable": got})
@@ -462,40 +806,103 @@ def check_pattern(ctx, sess, fr, h, w, sc, prim, segs, bits, passed, cross):
     if not got:
         return
     expected = []
-    for y in range(h + 1):
-        for x in range(w + 1):
-            expected.append((passed[y, x], vis[(y, x)]))
-            expected.append((cross[y, x], crs[(y, x)]))
-    bad = [(v.id, val, model[v.id]) for v, val in expected if model[v.id] != val]
+    where = {}
+    for k, (passed, cross) in enumerate(outs):
+        for y in range(h + 1):
+            for x in range(w + 1):
+                expected.append((passed[y, x], vis[(y, x)]))
+                where[passed[y, x].id] = "call %d is_passed[%d,%d]" % (k + 1, y, x)
+                expected.append((cross[y, x], crs[(y, x)]))
+                where[cross[y, x].id] = "call %d is_cross[%d,%d]" % (k + 1, y, x)
+    bad = [(where[v.id], val, model[v.id]) for v, val in expected if model[v.id] != val]
     if not bad:
-        other = sess.other_values(fixed, expected)
+        try:
+            other = sess.other_values(fixed, expected)
+        except Undecided as ex:
+            ctx.harness_error("%s: %s" % (key, ex))
+            return
         if other is not None:
-            bad = [(v.id, val, other[v.id]) for v, val in expected if other[v.id] != val]
-    ctx.prop_case("outputs-vs-oracle", (h, w, sc, prim, pat))
+            bad = [(where[v.id], val, other[v.id]) for v, val in expected if other[v.id] != val]
+    ctx.prop_case("outputs-vs-oracle", (h, w, sc, prim, pat, variant))
     if bad:
         d = dict(detail)
-        d.update({"returned_array_values (var id, expected, observed in a solution)": bad})
+        d.update({"returned_array_values (entry, expected, observed in a solution)": bad})
         ctx.violation(key + ":outputs", "a solution gives the returned arrays other values than visited / 4-way points", d)
 
 
-def search_one(ctx, h, w, sc, prim, patterns=None):
+def _outputs_ok(outs, h, w):
+    from cspuz.array import BoolArray2D
+    from cspuz.expr import BoolVar
+    for r in outs:
+        if not (isinstance(r, tuple) and len(r) == 2):
+            return False
+        for a in r:
+            if not isinstance(a, BoolArray2D) or tuple(a.shape) != (h + 1, w + 1):
+                return False
+            if not all(isinstance(v, BoolVar) for v in a.data):
+                return False
+    return True
+
+
+def search_one(ctx, h, w, sc, prim, patterns=None, variant="plain", const_mode=None):
+    """one Solver, one frame of fresh variables, the calls of `variant`, then every pattern by assumptions.
+    const_mode "const" / "half": the pattern is given as Python True/False (all / every other segment) in the
+    frame's arrays instead -- then a Solver per pattern."""
     from cspuz import Solver
     from cspuz.grid_frame import BoolGridFrame
-    s = Solver()
-    fr = BoolGridFrame(s, h, w)
-    r = vlib.guarded(lambda: call_impl(s, fr, sc, prim, False))
-    if r[0] == "err":
-        ctx.violation("crossable:%dx%d:sc%d:prim%d:raises" % (h, w, sc, prim),
-                      "active_edges_connected_crossable raises on a plain frame",
-                      {"h": h, "w": w, "single_cycle": sc, "use_graph_primitive": prim, "error": r[1]})
-        return
-    passed, cross = r[1]
-    sess = Session(s)
     segs = lattice_segments(h, w)
     if patterns is None:
         patterns = itertools.product([False, True], repeat=len(segs))
-    for bits in patterns:
-        check_pattern(ctx, sess, fr, h, w, sc, prim, segs, bits, passed, cross)
+    patterns = [(p if isinstance(p[0] if p else None, str) else (None, p)) for p in patterns]
+
+    def setup(fr_maker):
+        s = Solver()
+        fr = fr_maker(s)
+        before = (exprio.show_list(fr.horizontal.data), exprio.show_list(fr.vertical.data))
+        r = vlib.guarded(lambda: do_calls(s, fr, sc, prim, variant))
+        what = None
+        if r[0] == "err":
+            what = "active_edges_connected_crossable raises on a plain frame"
+        elif not _outputs_ok(r[1], h, w):
+            what = "active_edges_connected_crossable does not return two (height+1, width+1) arrays of variables"
+        elif (exprio.show_list(fr.horizontal.data), exprio.show_list(fr.vertical.data)) != before:
+            what = "active_edges_connected_crossable changes the frame passed in"
+        if what:
+            ctx.violation(_key(h, w, sc, prim, "raises", variant if not const_mode else variant + "," + const_mode), what,
+                          {"h": h, "w": w, "single_cycle": sc, "use_graph_primitive": prim, "variant": variant,
+                           "const_mode": const_mode, "error": r[1] if r[0] == "err" else None})
+            return None
+        return fr, r[1], Session(s)
+
+    if const_mode is None:
+        st = setup(lambda s: BoolGridFrame(s, h, w))
+        if st is None:
+            return
+        fr, outs, sess = st
+        for (fam, bits) in patterns:
+            if fam:
+                ctx.count("pattern:" + fam)
+            check_pattern(ctx, sess, fr, h, w, sc, prim, segs, bits, outs, variant, fam)
+        return
+    from cspuz.array import BoolArray2D
+    nh, nv = (h + 1) * w, h * (w + 1)
+    for (fam, bits) in patterns:
+        def mk(s):
+            hz, vt = [None] * nh, [None] * nv
+            for i, ((sg, d), b) in enumerate(zip(segs, bits)):
+                (y, x) = min(sg)
+                ent = bool(b) if (const_mode == "const" or i % 2 == 0) else s.bool_var()
+                if d == "h":
+                    hz[y * w + x] = ent
+                else:
+                    vt[y * (w + 1) + x] = ent
+            return BoolGridFrame(s, h, w, horizontal=BoolArray2D(hz, (h + 1, w)), vertical=BoolArray2D(vt, (h, w + 1)))
+        st = setup(mk)
+        if st is None:
+            return
+        fr, outs, sess = st
+        ctx.count("pattern-as-constants:" + const_mode)
+        check_pattern(ctx, sess, fr, h, w, sc, prim, segs, bits, outs, variant + "," + const_mode, fam)
 
 
 def degree_ok_patterns(h, w):
@@ -526,32 +933,47 @@ def sampled_patterns(ctx, h, w, n_random):
             yield bits
 
 
+def _spec_requests(h, w, sc, segs, patterns):
+    pos = {}
+    for i, (sg, d) in enumerate(segs):
+        (y, x) = min(sg)
+        pos[i] = ("h", y * w + x) if d == "h" else ("v", y * (w + 1) + x)
+    nh, nv = (h + 1) * w, h * (w + 1)
+    pts = [(y, x) for y in range(h + 1) for x in range(w + 1)]
+    reqs, exps = [], []
+    for bits in patterns:
+        hb, vb = ["0"] * nh, ["0"] * nv
+        for i, b in enumerate(bits):
+            if b:
+                k, j = pos[i]
+                (hb if k == "h" else vb)[j] = "1"
+        reqs.append("S %d %d %d %s %s" % (h, w, sc, "".join(hb) or "-", "".join(vb) or "-"))
+        ok, vis, crs = oracle(h, w, [s for s, b in zip(segs, bits) if b], sc)
+        exps.append("%d %s %s" % (ok, "".join("1" if vis[p] else "0" for p in pts),
+                                  "".join("1" if crs[p] else "0" for p in pts)))
+    return reqs, exps
+
+
 def spec_vs_oracle(ctx):
     """the trusted Coq specification (its executable form crossable_spec_b, proved equivalent to
-    crossable_spec) against the independent oracle, on every pattern of the small frames"""
+    crossable_spec) against the independent oracle, on every pattern of the small frames and on the targeted
+    patterns of the larger ones"""
+    import random
     m = ctx.model("C10")
     for (h, w) in search_frames(ctx):
         segs = lattice_segments(h, w)
         if len(segs) > (17 if ctx.thorough else 13):
             continue
-        pos = {}
-        for i, (sg, d) in enumerate(segs):
-            (y, x) = min(sg)
-            pos[i] = ("h", y * w + x) if d == "h" else ("v", y * (w + 1) + x)
-        nh, nv = (h + 1) * w, h * (w + 1)
         for sc in (False, True):
-            reqs, exps = [], []
-            for bits in itertools.product([False, True], repeat=len(segs)):
-                hb, vb = ["0"] * nh, ["0"] * nv
-                for i, b in enumerate(bits):
-                    if b:
-                        k, j = pos[i]
-                        (hb if k == "h" else vb)[j] = "1"
-                reqs.append("S %d %d %d %s %s" % (h, w, sc, "".join(hb) or "-", "".join(vb) or "-"))
-                ok, vis, crs = oracle(h, w, [s for s, b in zip(segs, bits) if b], sc)
-                pts = [(y, x) for y in range(h + 1) for x in range(w + 1)]
-                exps.append("%d %s %s" % (ok, "".join("1" if vis[p] else "0" for p in pts),
-                                          "".join("1" if crs[p] else "0" for p in pts)))
+            reqs, exps = _spec_requests(h, w, sc, segs, itertools.product([False, True], repeat=len(segs)))
+            outs = m.batch(reqs)
+            for r, o, e in zip(reqs, outs, exps):
+                ctx.corr("spec-vs-oracle", r, o, e)
+    for (h, w) in targeted_frames(ctx):
+        segs = lattice_segments(h, w)
+        pats = [bits for (_, bits) in targeted_patterns(h, w, random.Random(ctx.rng.randrange(1 << 30)))]
+        for sc in (False, True):
+            reqs, exps = _spec_requests(h, w, sc, segs, pats)
             outs = m.batch(reqs)
             for r, o, e in zip(reqs, outs, exps):
                 ctx.corr("spec-vs-oracle", r, o, e)
@@ -564,37 +986,117 @@ class _Recorder:
         import random
         self.rng = random.Random(seed)
         self.thorough, self.deep = thorough, deep
-        self.cases, self.viol = [], []
+        self.cases, self.viol, self.errors = [], [], []
+        self.dist = {}
 
     def prop_case(self, kind, inp, nontrivial=True):
         self.cases.append((kind, inp))
+
+    def count(self, key, n=1):
+        self.dist[key] = self.dist.get(key, 0) + n
 
     def violation(self, key, what, detail):
         if len(self.viol) < 40:
             self.viol.append((key, what, detail))
 
+    def harness_error(self, what):
+        if len(self.errors) < 20:
+            self.errors.append(what)
+
+
+KEEP_FAMILIES = {"empty", "eight", "plus", "plus-long", "curl", "trail-open", "trail-closed", "square-chain", "snake",
+                 "all-lines", "two-eights"}
+
+
+def _job_patterns(rec, job):
+    h, w, mode = job["h"], job["w"], job["mode"]
+    if mode == "full":
+        return None
+    if mode == "sampled":
+        return sampled_patterns(rec, h, w, job["nrand"])
+    if mode == "targeted":
+        pats = targeted_patterns(h, w, rec.rng, n_random=job.get("nrand", 60))
+        take = job.get("take")
+        if take and len(pats) > take:       # the named shapes always, a sample of the bulk families
+            rest = [i for i, p in enumerate(pats) if p[0] not in KEEP_FAMILIES]
+            n_keep = len(pats) - len(rest)
+            chosen = set(rec.rng.sample(rest, max(0, min(len(rest), take - n_keep))))
+            pats = [p for i, p in enumerate(pats) if p[0] in KEEP_FAMILIES or i in chosen]
+        return pats
+    if mode == "crossing":
+        stride = job.get("stride", 1)
+        off = rec.rng.randrange(stride)
+        return [bits for i, bits in enumerate(crossing_patterns(h, w)) if i % stride == off]
+    if mode == "empty":
+        return [("empty", tuple([False] * ((h + 1) * w + h * (w + 1))))]
+    raise ValueError(mode)
+
 
 def _search_job(job):
-    (h, w, sc, prim, full, nrand, seed, thorough, deep) = job
-    rec = _Recorder(seed, thorough, deep)
-    search_one(rec, h, w, sc, prim, None if full else sampled_patterns(rec, h, w, nrand))
-    return rec.cases, rec.viol
+    import traceback
+    rec = _Recorder(job["seed"], job["thorough"], job["deep"])
+    for (h, w) in job["frames"]:
+        j = dict(job)
+        j["h"], j["w"] = h, w
+        try:
+            search_one(rec, h, w, job["sc"], job["prim"], _job_patterns(rec, j), job.get("variant", "plain"),
+                       job.get("const_mode"))
+        except Exception:
+            rec.harness_error("job %r: %s" % ({k: j[k] for k in ("h", "w", "sc", "prim", "mode")},
+                                              traceback.format_exc()[-1500:]))
+    return rec.cases, rec.viol, rec.dist, rec.errors
 
 
 def search_jobs(ctx):
     jobs = []
+    deep = bool(getattr(ctx, "deep", False))
+
+    def job(frames, sc, prim, mode, weight, **kw):
+        j = {"frames": frames, "sc": sc, "prim": prim, "mode": mode, "weight": weight,
+             "seed": ctx.rng.randrange(1 << 30), "thorough": ctx.thorough, "deep": deep}
+        j.update(kw)
+        jobs.append(j)
+
+    both = [(sc, prim) for sc in (False, True) for prim in (False, True)]
+    big = ctx.thorough or deep
+    # (1) every pattern of the small frames (larger ones: every pattern obeying the degree rule + random others)
     for (h, w) in search_frames(ctx):
         nseg = (h + 1) * w + h * (w + 1)
-        for sc in (False, True):
-            for prim in (False, True):
-                if prim:
-                    full = nseg <= 10
-                    nrand = 3000 if (ctx.thorough or ctx.deep) else 500
-                else:
-                    full = nseg <= (13 if ctx.thorough else 12)
-                    nrand = 5000 if ctx.thorough else 3000
-                seed = ctx.rng.randrange(1 << 30)
-                jobs.append((h, w, sc, prim, full, nrand, seed, ctx.thorough, bool(getattr(ctx, "deep", False))))
+        for (sc, prim) in both:
+            if prim:
+                full = nseg <= 12
+                nrand = 3000 if big else 500
+            else:
+                full = nseg <= (13 if ctx.thorough else 12)
+                nrand = 5000 if ctx.thorough else 3000
+            job([(h, w)], sc, prim, "full" if full else "sampled", 2 ** min(nseg, 14), nrand=nrand)
+    # (2) frames just beyond: targeted shapes; on 2x3 / 3x2 also the degree-rule patterns with a 4-way point
+    for (h, w) in targeted_frames(ctx):
+        nseg = (h + 1) * w + h * (w + 1)
+        for (sc, prim) in both:
+            job([(h, w)], sc, prim, "targeted", 150 * nseg, nrand=120 if big else 60,
+                take=None if (big or nseg <= 17) else 420)
+    for (h, w) in [(2, 3), (3, 2)]:
+        for (sc, prim) in both:
+            job([(h, w)], sc, prim, "crossing", 6000 if sc else 9000, stride=1 if (big or sc) else 3)
+    # (3) no segment drawn, on every frame size: both arrays forced false everywhere
+    for (sc, prim) in both:
+        for variant in ("plain", "alias") if sc else ("plain",):
+            job(empty_frames(ctx), sc, prim, "empty", 1500, variant=variant)
+    # (4) other ways of making the same call; two calls on one Solver and one frame
+    for variant in VARIANTS[1:]:
+        for (sc, prim) in both:
+            if variant == "alias" and not sc:
+                continue
+            job([(1, 1), (1, 2), (2, 1), (0, 2)], sc, prim, "full", 400, variant=variant)
+            job([(2, 2), (2, 3), (3, 2)] + ([(3, 4)] if ctx.thorough else []), sc, prim, "targeted", 1500,
+                variant=variant, nrand=20, take=None if big else 110)
+    # (5) the pattern written into the frame as Python True / False (all segments, every other segment)
+    for cm in ("const", "half"):
+        for (sc, prim) in both:
+            job([(0, 1), (1, 1), (1, 2)] + ([(2, 1)] if big else []), sc, prim, "full", 500, const_mode=cm)
+            job([(2, 2), (2, 3)] + ([(3, 2)] if big else []), sc, prim, "targeted", 1000, const_mode=cm, nrand=10,
+                take=150 if big else 32)
     return jobs
 
 
@@ -602,20 +1104,28 @@ def search(ctx):
     import concurrent.futures
     import os
     jobs = search_jobs(ctx)
-    # biggest first, so that the pool stays busy
-    order = sorted(range(len(jobs)), key=lambda i: -((jobs[i][0] + 1) * jobs[i][1] + jobs[i][0] * (jobs[i][1] + 1)))
+    order = sorted(range(len(jobs)), key=lambda i: -jobs[i]["weight"])     # biggest first: the pool stays busy
     workers = max(1, min(6, (os.cpu_count() or 2) // 2))
     results = {}
     with concurrent.futures.ProcessPoolExecutor(max_workers=workers) as ex:
         futs = {ex.submit(_search_job, jobs[i]): i for i in order}
         for f in concurrent.futures.as_completed(futs):
-            results[futs[f]] = f.result()
+            try:
+                results[futs[f]] = f.result()
+            except Exception as exn:       # a worker that died must not hide what the others found
+                results[futs[f]] = ([], [], {}, ["worker for job %r died: %r" % (jobs[futs[f]], exn)])
+    errors = []
     for i in range(len(jobs)):           # merge in the deterministic job order
-        cases, viol = results[i]
+        cases, viol, dist, errs = results[i]
         for (kind, inp) in cases:
             ctx.prop_case(kind, inp)
         for (key, what, detail) in viol:
             ctx.violation(key, what, detail)
+        for k, n in dist.items():
+            ctx.count(k, n)
+        errors += errs
+    if errors:
+        raise RuntimeError("search harness could not decide %d case(s): %s" % (len(errors), " | ".join(errors[:3])))
 
 
 def replay(ctx, rp):
@@ -624,7 +1134,12 @@ def replay(ctx, rp):
     if not v or "pattern" not in v:
         return 0
     bits = tuple(c == "1" for c in v["pattern"])
-    search_one(ctx, v["h"], v["w"], v["single_cycle"], v["use_graph_primitive"], [bits])
+    variant = v.get("variant", "plain")
+    cm = v.get("const_mode")
+    if "," in variant:
+        variant, cm = variant.split(",")
+    ctx.harness_error = lambda what: print("undecided:", what)
+    search_one(ctx, v["h"], v["w"], v["single_cycle"], v["use_graph_primitive"], [bits], variant, cm)
     for x in ctx.violations:
         print("reproduced:", x["key"], x["what"])
     return 1 if ctx.violations else 0
